@@ -11,6 +11,7 @@ import Driver.Grpc
 import Driver.Spec
 import Driver.HeapD
 import Driver.PyDict
+import Driver.PluginSchema
 /- line protocol: one request per line on stdin, one reply per line on stdout -/
 open Drv
 
@@ -65,6 +66,9 @@ def step (st : AllSt) (line : String) : AllSt × String :=
   | some r => (st, r)
   | none =>
   match handlePyDict st.wire toks with
+  | some r => (st, r)
+  | none =>
+  match handlePluginSchema toks with
   | some r => (st, r)
   | none => (st, "bad-op")
 
